@@ -38,6 +38,21 @@ type stResult struct {
 	Subs      int      `json:"subs"`
 	Conns     int      `json:"conns"`
 	Deviation string   `json:"deviation,omitempty"`
+	// direction B for SubscriptionImpl: per subscription, the program points its goroutines went through
+	SubTraces []subTrace `json:"subTraces,omitempty"`
+	Unlinked  int        `json:"unlinked,omitempty"`
+}
+
+// subTrace is one record of spec/SubscriptionImplTrace.tla.
+type subTrace struct {
+	Key     string   `json:"key"`
+	CS      []string `json:"cs"`
+	US      []string `json:"us"`
+	Settled bool     `json:"settled"`
+	L       []string `json:"L"`
+	C       []string `json:"C"`
+	R       []string `json:"R"`
+	K       []string `json:"K"`
 }
 
 type stSub struct {
@@ -47,6 +62,9 @@ type stSub struct {
 	emitted []string // what the client must see, in order: item names / error messages
 	upDone  bool
 	stopped bool
+	seOrd   int      // ordinal of the subscriptionEntry / upstream subscription instance (0: could not be linked)
+	cs      []string // the client messages that concern this subscription, in SubscriptionImpl's vocabulary
+	us      []string // what its upstream did
 }
 
 var stItems = []string{"Item_1", "Item_2", "Item_3"}
@@ -78,20 +96,51 @@ func runStress(e *env, c stCase) (res stResult) {
 	upsvc := e.ups[e.w.Services[0].URL]
 	var subs []*stSub
 	nextID := 0
+	// the driver starts operations one at a time and waits for the upstream's `start`, so the k-th entry and the k-th
+	// upstream subscription belong to the operation just started; anything else makes the run's traces unusable
+	linkable := true
+	link := func(sb *stSub, se0, q0 int) {
+		se1, q1 := rt.counts()
+		if se1 == se0+1 && q1 == q0+1 && se1 == q1 {
+			sb.seOrd = se1
+		} else {
+			linkable = false
+		}
+	}
+	holder := func(ci int, id string) *stSub {
+		var h *stSub
+		for _, x := range subs {
+			if x.conn == ci && x.id == id {
+				h = x
+			}
+		}
+		return h
+	}
+	connEnds := func(ci int, how string) {
+		for _, x := range subs {
+			if x.conn == ci {
+				x.cs = append(x.cs, how)
+			}
+		}
+	}
 	start := func(ci int) {
 		nextID++
 		sb := &stSub{conn: ci, id: fmt.Sprintf("s%d", nextID)}
 		act("start c%d/%s", ci, sb.id)
+		se0, q0 := rt.counts()
 		clients[ci].start(sb.id, tdQuery, map[string]interface{}{}, "")
 		select {
 		case sb.up = <-upsvc.conns:
 		case <-time.After(2 * time.Second):
 			act("no upstream for c%d/%s", ci, sb.id)
+			linkable = false
 			return
 		}
 		select {
 		case <-sb.up.started:
+			link(sb, se0, q0)
 		case <-time.After(2 * time.Second):
+			linkable = false
 		}
 		subs = append(subs, sb)
 	}
@@ -120,21 +169,25 @@ func runStress(e *env, c stCase) (res stResult) {
 				act("emit c%d/%s %s", sb.conn, sb.id, it)
 				if sb.up.SendData(e.payloadFor(sb.up, "itemChanged", world.R(it))) == nil {
 					sb.emitted = append(sb.emitted, stNames[it])
+					sb.us = append(sb.us, "data")
 				}
 			case q == 7:
 				msg := fmt.Sprintf("boom %d", k)
 				act("error c%d/%s", sb.conn, sb.id)
 				if sb.up.write(map[string]interface{}{"type": "error", "id": "1", "payload": []map[string]interface{}{{"message": msg}}}) == nil {
 					sb.emitted = append(sb.emitted, "!"+msg)
+					sb.us = append(sb.us, "error")
 				}
 			case q == 8:
 				act("complete c%d/%s", sb.conn, sb.id)
 				sb.up.SendComplete()
 				sb.upDone = true
+				sb.us = append(sb.us, "complete")
 			default:
 				act("drop c%d/%s", sb.conn, sb.id)
 				sb.up.Drop()
 				sb.upDone = true
+				sb.us = append(sb.us, "drop")
 			}
 		case r < 60: // stop
 			if len(subs) == 0 {
@@ -147,6 +200,9 @@ func runStress(e *env, c stCase) (res stResult) {
 			act("stop c%d/%s", sb.conn, sb.id)
 			clients[sb.conn].send(map[string]string{"type": "stop", "id": sb.id})
 			sb.stopped = true
+			if h := holder(sb.conn, sb.id); h != nil {
+				h.cs = append(h.cs, "stop")
+			}
 		case r < 72: // another subscription
 			ci := rng.Intn(nconn)
 			if alive[ci] {
@@ -162,17 +218,24 @@ func runStress(e *env, c stCase) (res stResult) {
 			}
 			sb := &stSub{conn: old.conn, id: old.id}
 			act("restart c%d/%s", sb.conn, sb.id)
+			se0, q0 := rt.counts()
+			if h := holder(sb.conn, sb.id); h != nil {
+				h.cs = append(h.cs, "restart")
+			}
 			clients[sb.conn].start(sb.id, tdQuery, map[string]interface{}{}, "")
 			select {
 			case sb.up = <-upsvc.conns:
 				select {
 				case <-sb.up.started:
+					link(sb, se0, q0)
 				case <-time.After(2 * time.Second):
+					linkable = false
 				}
 				old.stopped = true
 				subs = append(subs, sb)
 			case <-time.After(2 * time.Second):
 				act("no upstream for restart")
+				linkable = false
 			}
 		case r < 76:
 			ci := rng.Intn(nconn)
@@ -189,21 +252,26 @@ func runStress(e *env, c stCase) (res stResult) {
 			switch q := rng.Intn(5); q {
 			case 0:
 				act("terminate c%d", ci)
+				connEnds(ci, "terminate")
 				clients[ci].send(map[string]string{"type": "connection_terminate"})
 			case 1:
 				act("garbage c%d", ci)
+				connEnds(ci, "garbage")
 				clients[ci].sendRaw([]byte("{not json"))
 			case 2:
 				act("reset c%d", ci)
+				connEnds(ci, "reset")
 				clients[ci].reset()
 			case 3:
 				act("incomplete c%d", ci)
+				connEnds(ci, "reset")
 				// a frame header announcing 100 masked bytes, 7 of them, then the connection goes away
 				clients[ci].conn.Write([]byte{0x81, 0x80 | 100, 1, 2, 3, 4, 'x', 'x', 'x', 'x', 'x', 'x', 'x'})
 				time.Sleep(time.Duration(rng.Intn(300)) * time.Microsecond)
 				clients[ci].reset()
 			case 4:
 				act("unknown-type c%d", ci)
+				connEnds(ci, "garbage")
 				clients[ci].send(map[string]string{"type": "bogus"})
 			}
 		}
@@ -213,9 +281,11 @@ func runStress(e *env, c stCase) (res stResult) {
 		if alive[ci] {
 			if rng.Intn(2) == 0 {
 				act("final terminate c%d", ci)
+				connEnds(ci, "terminate")
 				cl.send(map[string]string{"type": "connection_terminate"})
 			} else {
 				act("final reset c%d", ci)
+				connEnds(ci, "reset")
 				cl.reset()
 			}
 		}
@@ -223,6 +293,11 @@ func runStress(e *env, c stCase) (res stResult) {
 	extra, _ := settle(base, nil, 1500*time.Millisecond)
 	res.Leak = extra
 	res.Subs = len(subs)
+	if linkable {
+		res.SubTraces = subTraces(c.ID, subs, s.Snapshot())
+	} else {
+		res.Unlinked = len(subs)
+	}
 	for _, sb := range subs {
 		if !sb.up.IsClosed(300 * time.Millisecond) {
 			res.UpOpen++
@@ -366,4 +441,74 @@ func isShuffleOfPrefixes(got []string, lists [][]string) bool {
 		return false
 	}
 	return rec(0)
+}
+
+// subTraces projects the hook events of one run onto the goroutines of each subscription (see
+// spec/SubscriptionImplTrace.tla): per goroutine the sequence of program points, in SubscriptionImpl's names.  The
+// points the model's initial state already stands at (Listen in its first select, the reader at its first read, the
+// closer waiting) are dropped.
+func subTraces(run string, subs []*stSub, log []sched.Event) []subTrace {
+	pcOf := map[string][2]string{
+		"se.listen.select": {"L", "select"}, "se.listen.write": {"L", "write"}, "se.listen.closech": {"L", "closech"},
+		"se.listen.defer.qclose": {"L", "dq"}, "se.listen.done": {"L", "done"},
+		"se.close.enter": {"C", "enter"}, "se.close.closed": {"C", "done"},
+		"sub.reader.start": {"R", "start"}, "sub.reader.read": {"R", "read"}, "sub.reader.send": {"R", "send"},
+		"sub.reader.exit": {"R", "exit"}, "sub.reader.exit.nil": {"R", "sendnil"}, "sub.reader.done": {"R", "done"},
+		"sub.closer.wait": {"K", "wait"}, "sub.closer.close": {"K", "close"}, "sub.closer.done": {"K", "done"},
+	}
+	per := map[int]map[string][]string{}
+	for _, ev := range log {
+		base, ord := ev.Key, 1
+		if i := strings.IndexByte(ev.Key, '#'); i >= 0 {
+			base = ev.Key[:i]
+			fmt.Sscanf(ev.Key[i+1:], "%d", &ord)
+		}
+		var proc, pc string
+		if base == "se.listen.resp" {
+			proc, pc = "L", "resp"
+			if len(ev.Args) > 0 && ev.Args[0] == true {
+				pc = "respnil"
+			}
+		} else if m, ok := pcOf[base]; ok {
+			proc, pc = m[0], m[1]
+		} else {
+			continue
+		}
+		if per[ord] == nil {
+			per[ord] = map[string][]string{}
+		}
+		if l := per[ord][proc]; proc == "R" && pc == "read" && len(l) > 0 && l[len(l)-1] == "read" {
+			// a frame that is neither an event nor an end (connection_ack, keep-alive): the reader is back at its read,
+			// a stuttering step of the model
+			continue
+		}
+		per[ord][proc] = append(per[ord][proc], pc)
+	}
+	strip := func(l []string, lead ...string) []string {
+		for _, x := range lead {
+			if len(l) > 0 && l[0] == x {
+				l = l[1:]
+			}
+		}
+		if l == nil {
+			l = []string{}
+		}
+		return l
+	}
+	nn := func(l []string) []string {
+		if l == nil {
+			return []string{}
+		}
+		return l
+	}
+	var out []subTrace
+	for i, sb := range subs {
+		if sb.seOrd == 0 {
+			continue
+		}
+		p := per[sb.seOrd]
+		out = append(out, subTrace{Key: fmt.Sprintf("%s/%d/c%d/%s", run, i, sb.conn, sb.id), CS: nn(sb.cs), US: nn(sb.us), Settled: true,
+			L: strip(p["L"], "select"), C: nn(p["C"]), R: strip(p["R"], "start", "read"), K: strip(p["K"], "wait")})
+	}
+	return out
 }
